@@ -21,6 +21,10 @@ int verif_load(const char *name, void *p, size_t n) {
     printf("note: input %s not in the trace (zero used)\n", name);
     return 0;
 }
+/* oracle stubs that survive natively (e.g. a logging compression stub) draw zeros */
+#include <stdint.h>
+size_t nondet_size(void) { return 0; } _Bool nondet_bool(void) { return 0; } int nondet_int(void) { return 0; }
+unsigned char nondet_uchar(void) { return 0; } uint64_t nondet_u64(void) { return 0; } uint32_t nondet_u32(void) { return 0; }
 int main(int argc, char **argv) {
     FILE *f; static char line[1 << 20]; 
     if (argc < 2 || !(f = fopen(argv[1], "r"))) { fprintf(stderr, "usage: replay <inputs>\n"); return 2; }
